@@ -298,6 +298,10 @@ func (e *Engine) callFn(st *State, x *ssa.Call, fn *ssa.Function, bind []Value, 
 			msg, _ := strConcrete(args[0].(*StrV))
 			e.violation(st, "FORBIDDEN", "output through "+msg+" at "+e.pos(x.Pos()))
 			return false
+		case "vpUnmodelled":
+			msg, _ := strConcrete(args[0].(*StrV))
+			e.abort("UNMODELLED (harness model) " + msg)
+			return false
 		case "vpSetClock":
 			st.syncInt["clock"] = e.mustInt(st, args[0], "clock mode")
 			return true
@@ -357,11 +361,15 @@ func (e *Engine) callFn(st *State, x *ssa.Call, fn *ssa.Function, bind []Value, 
 	// 3a. library models written in harness Go take precedence over the engine's own models:
 	// vpModel_<pkg>_<Func> for package functions, vpModelM_<pkg>_<Type>_<Method> for methods
 	// (same signature, receiver first). Natively the real library code runs.
-	if fn.Pkg != nil && fn.Pkg != e.pkg {
+	mpkg, mshort := fn.Pkg, short
+	if o := fn.Origin(); o != nil && o != fn { // an instantiation of a generic library function: modelled at one concrete type
+		mpkg, mshort = o.Pkg, o.Name()
+	}
+	if mpkg != nil && mpkg != e.pkg {
 		rep := strings.NewReplacer("/", "_", ".", "_")
 		mn := ""
 		if recv := fn.Signature.Recv(); recv == nil {
-			mn = "vpModel_" + rep.Replace(fn.Pkg.Pkg.Path()) + "_" + short
+			mn = "vpModel_" + rep.Replace(mpkg.Pkg.Path()) + "_" + mshort
 		} else {
 			rt := recv.Type()
 			if pt, ok := rt.(*types.Pointer); ok {
